@@ -253,9 +253,17 @@ func (d *Driver) clientFinishedOrSettled(c *ClientState) bool { return true }
 func (d *Driver) misclassify(c *ClientState, i int, got []byte, exps []Expected) string {
 	own := c.Plan.Reqs[i].Tok
 	// reordered: the bytes are exactly what another position of this client was to receive
+	order := make([]int, 0, len(exps))
+	for j := i + 1; j < len(exps); j++ {
+		order = append(order, j)
+	}
+	for j := i - 1; j >= 0; j-- {
+		order = append(order, j)
+	}
 	for pass := 0; pass < 2; pass++ {
-		for j, e := range exps {
-			if j == i || !e.Known || e.AnyError || !bytes.Equal(got, e.Exact) {
+		for _, j := range order {
+			e := exps[j]
+			if !e.Known || e.AnyError || !bytes.Equal(got, e.Exact) {
 				continue
 			}
 			cj := c.Plan.Reqs[j].Class
@@ -276,7 +284,7 @@ func (d *Driver) misclassify(c *ClientState, i int, got []byte, exps []Expected)
 	for _, t := range tokenRe.FindAll(clip(got, 1<<16), -1) {
 		ts := string(t)
 		if !strings.HasPrefix(ts, own+"k") {
-			if strings.HasPrefix(ts, fmt.Sprintf("c%dr", c.Idx)) {
+			if strings.HasPrefix(ts, own[:strings.Index(own, "r")+1]) {
 				return "reordered:token"
 			}
 			return "foreign"
